@@ -104,6 +104,11 @@ def run(res, programs, tier):
             c17._r17_3(res, P, P.name)
     from . import fdt_tables
     fdt_tables.r05_3(res, programs)
+    # R05.3c: the log2-estimate shortcuts of the comparison kernels are conservative (shared polarity rule)
+    from . import polarity
+    for P in programs:
+        if "dashu_float" in P.units and "dashu_ratio" in P.units and P.role == "main":
+            polarity.rule(res, P, P.name, "R05.3c")
 
 
 def _find(P, path, crate=None):
